@@ -27,9 +27,11 @@ theorem tank_checks (lag : Nat) : (tankPolls.all fun (ph, n) => pollOK (tank lag
 /-- inside the polling phases with a time limit nothing but the poll itself touches the delayed call -/
 theorem limit_phase_checks (lag : Nat) :
     ((tankPolls.take 2).all fun (ph, _) => noRearm (tank lag) tankTimerReach ph) = true ∧
-    noRearm (swim lag) swimTimerReach swimPolls[2].1 = true :=
+    noRearm (swim lag) swimTimerReach swimPolls[2].1 = true ∧
+    noRearm (swim lag) swimTimerReach swimPolls[0].1 = true :=
   (by decide +kernel :
     ((tankPolls.take 2).all fun (ph, _) => noRearm (tank 0) tankTimerReach ph) = true ∧
-    noRearm (swim 0) swimTimerReach swimPolls[2].1 = true)
+    noRearm (swim 0) swimTimerReach swimPolls[2].1 = true ∧
+    noRearm (swim 0) swimTimerReach swimPolls[0].1 = true)
 
 end Poupool.Timing
